@@ -203,6 +203,25 @@ def run(ctx) -> None:
                         "shared": k % 2 == 1}
                 ctx.check(case, lambda c: _run_one(ctx, c))
     ctx.sweep("payload length 0..300 x keys x {req,resp}", n * 2, True)
+    # payloads that merely look like a V2 packet (marker, a length field that disagrees with the real length, two packets
+    # back to back): the V3 layer must deliver the payload as sent, whatever it contains
+    z = 0
+    for total in (6, 8, 56, 57, 104, 113, 208, 300):
+        for declared in (0, 1, 6, 40, 56, 104, total - 1, total, total + 1, 0xFFFF):
+            for head in (b"\x5a\x5a\x01\x11", b"\x5a\x5a\x00\x00", b"\x83\x70\x00\x20"):
+                z += 1
+                if not ctx.mine(z):
+                    continue
+                body = head + bytes([declared & 0xFF, (declared >> 8) & 0xFF]) + _payload(max(0, total - 6), z)
+                for kind in ("req", "resp"):
+                    case = {"kind": kind, "key": _key(3).hex(), "payload": body[:total].hex(), "counter": z & 0xFFF, "shared": z % 2 == 0}
+                    ctx.check(case, lambda c: _run_one(ctx, c))
+    two = rc.v2_encode(1, _payload(20, 1)) + rc.v2_encode(2, _payload(33, 2))
+    for kind in ("req", "resp"):
+        if ctx.mine(z + 1):
+            case = {"kind": kind, "key": _key(4).hex(), "payload": two.hex(), "counter": 9}
+            ctx.check(case, lambda c: _run_one(ctx, c))
+    ctx.sweep("packet-like payloads with inconsistent length fields", z * 2 + 2, True)
     # every counter 0..4095 for a few lengths
     m = 0
     for L in ((14, 30, 0) if ctx.quick else (14, 30, 0, 1, 104, 120, 200)):
